@@ -32,7 +32,28 @@ enum { FREE, CLAIMED, SENT, HELD };
 static int cur;						/* the agent taking the current step */
 static uint8_t spur_left[NA];
 static int vt_cas_spurious(void) { if (spur_left[cur]) { spur_left[cur]--; return 1; } return 0; }	/* weak CAS may fail spuriously (once per agent) */
-#ifndef VT_MONITOR
+static messageq_t mq;
+static uint16_t *storage;
+static unsigned D;
+#ifdef VT_MONITOR	/* C07: happens-before monitor on the message-queue pattern */
+#define VT_NAG NA
+#define VT_NLOC (DMAX + 7)
+#define vt_cur cur
+static int vt_loc_of(char *addr, unsigned size)
+{
+	(void)size;
+	if (VT_IN_OBJECT(addr, storage, D * 2)) return (int)((addr - (char *)storage) / 2);	/* message payloads */
+	if (addr == (char *)&mq.num_free) return DMAX;
+	if (addr == (char *)&mq.sendp) return DMAX + 1;
+	if (addr == (char *)&mq.full_flags) return DMAX + 2;
+	if (addr == (char *)&mq.receivep) return DMAX + 3;		/* single-owner bookkeeping of the receiver, accessed plainly */
+	if (addr == (char *)&mq.basep) return DMAX + 4;
+	if (addr == (char *)&mq.msg_len) return DMAX + 5;
+	if (addr == (char *)&mq.queue_len) return DMAX + 6;
+	return -1;
+}
+#include "vt_monitor.h"
+#else
 #define VT_ACCESS(addr, size, kind, order) ((void)0)
 #endif
 #define VT_CAS_SPURIOUS() vt_cas_spurious()
@@ -40,10 +61,6 @@ static int vt_cas_spurious(void) { if (spur_left[cur]) { spur_left[cur]--; retur
 static void vt_ev(int code, int who, char *p, int arg);
 static int vt_payload(int who, unsigned k) { (void)k; return who < NS ? in.payload[who] : 0; }
 #include "c04_gen.c"
-
-static messageq_t mq;
-static uint16_t *storage;
-static unsigned D;
 
 /* ---- ghost ownership ---- */
 static uint8_t st[DMAX]; static int owner[DMAX]; static unsigned cseq[DMAX]; static uint16_t written[DMAX];
@@ -123,6 +140,9 @@ void h_mq(void)
 	/* the held ones precede the window: receivep == sendp == r0 + held0 */
 	mq.receivep = (unsigned char)pos; atomic_store(&mq.sendp, pos); atomic_store(&mq.num_free, D - in.held0); atomic_store(&mq.full_flags, 0);
 
+#ifdef VT_MONITOR
+	vt_monitor_init();
+#endif
 	static struct sender_ctx sc[NS]; static struct receiver_ctx rc;
 	for (int a = 0; a < NS; a++) { sc[a].pc = 0; sc[a].done = 0; sc[a].v_0 = (char *)&mq; sc[a].v_1 = (uint32_t)a; sc[a].v_2 = 1; }
 	rc.pc = 0; rc.done = 0; rc.v_0 = (char *)&mq; rc.v_1 = RECV; rc.v_2 = in.held0 ? 0 : NR;	/* releases follow receives in order: with older messages still held the receiver stays out */
@@ -151,6 +171,10 @@ void h_mq(void)
 		cur = who;
 		if (who == RECV) { __CPROVER_assume(!rc.done); receiver_step(&rc); }
 		else { __CPROVER_assume(!sc[who].done); sender_step(&sc[who]); }
+#ifdef VT_MONITOR
+		VT_ASSERT(!vt_race);	/* payload bytes and the receiver's private index: every conflicting pair is ordered by happens-before */
+		VT_ASSERT(!vt_stray);
+#endif
 		sample();
 	}
 	{
